@@ -29,6 +29,7 @@ PROPS = {
     "C11": {"level": "exploration", "parts": [
         part("real", "stack", "TestVerifC11"),
         part("small", "stack", "TestVerifC11", variant="smallbuf-64")]},
+    "C16": {"level": "exploration", "parts": [part("console", "internal", "TestVerifC16", needs_pp=True)]},
     "C15": {"level": "exploration", "parts": [part("names", "stack", "TestVerifC15")]},
     "C12": {"level": "exploration", "parts": [part("agg", "stack", "TestVerifC12")]},
 }
